@@ -28,6 +28,7 @@ def units(tier, seed):
     shards = 4 if q else 16
     for i in range(shards):
         out.append({"unit": f"poly-random-{i}", "kind": "poly_rand", "count": nrand // shards, "shard": i, "cost": 4 if q else 20})
+    out.append({"unit": "poly-word-aliases", "kind": "poly_alias", "count": 150 if q else 1500, "cost": 6})
     for m in range(1, 17):
         out.append({"unit": f"field-laws-m{m}", "kind": "field_laws", "m": m, "cost": 1 + m / 4})
     for m in range(1, (7 if q else 9)):
@@ -92,6 +93,25 @@ def run_unit(ctx, u):
                 b = gf2m.pmul(a, rng.getrandbits(20) | 1)
             _poly_pair(ctx, BP, a, b, "deg<=200")
         ctx.sample({"unit": u["unit"], "pairs": u["count"], "example": {"a": a, "b": b}})
+        return
+
+    if kind == "poly_alias":
+        # operands that coincide with an earlier operand under Python's int hash (mod 2^61-1) or under 32/64-bit
+        # truncation: a result remembered or computed on a reduced key shows up as a wrong answer here
+        P61 = (1 << 61) - 1
+        for i in range(u["count"]):
+            a, b = rng.getrandbits(rng.randint(1, 14)), rng.getrandbits(rng.randint(1, 14)) | 1
+            _poly_pair(ctx, BP, a, b, "alias-base")
+            al = lambda v: [v + P61 * j for j in (1, 2, 5)] + [v + (1 << 32), v + (1 << 63), v + (1 << 64), v + ((1 << 31) - 1), v | (1 << 127), (v << 64) | v, (v << 61) + v]  # noqa: E731
+            As, Bs = al(a), al(b)
+            for a2 in As:
+                _poly_pair(ctx, BP, a2, b, "word-alias")
+            for b2 in Bs:
+                _poly_pair(ctx, BP, a, b2, "word-alias")
+            for a2, b2 in zip(As, Bs):
+                _poly_pair(ctx, BP, a2, b2, "word-alias")
+            _poly_pair(ctx, BP, a, b, "alias-base")  # and the small pair again after its aliases
+        ctx.sample({"unit": u["unit"], "base_pairs": u["count"], "aliases_per_operand": 10})
         return
 
     m = u["m"]
